@@ -277,7 +277,9 @@ def build_usegraph(p):
         f.add("  call inner()")
         f.add("contains")
         f.add("  subroutine inner()")
-        for j, spec in enumerate(uedges):
+        # (this kind states its USE lines in descending module order, the program kind in ascending order: which
+        # statement of a module reached twice is met first is part of the input)
+        for j, spec in reversed(list(enumerate(uedges))):
             if spec:
                 f.add("  " + use_line(j, spec))
         f.add("    integer :: w")
